@@ -44,3 +44,14 @@ Proof.
   - vm_compute. reflexivity.
   - exact demo_lexable.
 Qed.
+
+(* the character U+0000 inside a string or a regexp literal is an ordinary character: a program with such
+   literals is printable, its printed tokens are lexable, and its source text
+   `s = "a<NUL>b" ; r = /a<NUL>b/ ;` lexes and parses back to exactly the program *)
+Definition nul_prog : program :=
+  [SExpr (EAssign (L "s") (EStr [97; 0; 98])); SExpr (EAssign (L "r") (ERegexp [97; 0; 98] []))].
+
+Example nul_parse_source :
+  printable nul_prog = true /\ lexable (show_program nul_prog) = true /\
+  parse_script PrinterProofs.Demo.pf0 max_depth (source nul_prog) = ParseOk nul_prog.
+Proof. vm_compute. repeat split; reflexivity. Qed.
